@@ -75,6 +75,25 @@ func fixedGraph() tGraph {
 	}
 }
 
+// r -> x1..x3 -> y11..y33 -> z111..z333 (edges labelled by depth), every vertex with a name
+func treeGraph() tGraph {
+	g := tGraph{V: []tVertex{{ID: "r", Label: "P", Data: map[string]interface{}{"name": "r"}}}, E: []tEdge{}}
+	level := []string{"r"}
+	for d := 1; d <= 3; d++ {
+		next := []string{}
+		for _, p := range level {
+			for k := 1; k <= 3; k++ {
+				id := fmt.Sprintf("n%d_%s%d", d, p, k)
+				g.V = append(g.V, tVertex{ID: id, Label: []string{"P", "Q"}[k%2], Data: map[string]interface{}{"name": id, "w": float64(k)}})
+				g.E = append(g.E, tEdge{ID: "e_" + id, Label: fmt.Sprintf("d%d", d), From: p, To: id, Data: map[string]interface{}{"w": float64(d)}})
+				next = append(next, id)
+			}
+		}
+		level = next
+	}
+	return g
+}
+
 // the step alphabet for exhaustive enumeration
 func stepAlphabet() []tStmt {
 	h1 := hExpr{Kind: "cond", Key: "name", Op: "eq", Arg: "x"}
@@ -150,6 +169,53 @@ func genC01Cases(ctx *Ctx) []c01Input {
 			break
 		}
 		rec([]tStmt{st}, depth)
+	}
+	// the same element reaching one has() step several times with different values (after unwind) or different marks
+	{
+		hTag := func(v string) *hExpr { return &hExpr{Kind: "cond", Key: "tags", Op: "eq", Arg: v} }
+		hM := &hExpr{Kind: "cond", Key: "$m1.name", Op: "eq", Arg: "x"}
+		for _, p := range [][]tStmt{
+			{{Op: "V"}, {Op: "unwind", Str: "tags"}, {Op: "has", Has: hTag("a")}},
+			{{Op: "V"}, {Op: "unwind", Str: "tags"}, {Op: "has", Has: &hExpr{Kind: "not", Es: []hExpr{*hTag("a")}}}},
+			{{Op: "V"}, {Op: "unwind", Str: "tags"}, {Op: "has", Has: hTag("b")}, {Op: "count"}},
+			{{Op: "V"}, {Op: "as", Str: "m1"}, {Op: "out"}, {Op: "has", Has: hM}},
+			{{Op: "V"}, {Op: "as", Str: "m1"}, {Op: "both"}, {Op: "has", Has: &hExpr{Kind: "not", Es: []hExpr{*hM}}}},
+			{{Op: "E"}, {Op: "as", Str: "m1"}, {Op: "out"}, {Op: "has", Has: &hExpr{Kind: "cond", Key: "$m1.w", Op: "eq", Arg: 2.0}}},
+			{{Op: "V"}, {Op: "as", Str: "m1"}, {Op: "out"}, {Op: "hasKey", Strs: []string{"$m1.tags"}}},
+			{{Op: "V"}, {Op: "as", Str: "m1"}, {Op: "out"}, {Op: "distinct", Strs: []string{"$m1.name"}}},
+		} {
+			inputs = append(inputs, c01Input{Driver: "badger", Graph: fg, Prog: p})
+		}
+	}
+	// null-producing moves: a traveler without a current element reaching every step of the alphabet, marked and selected
+	for _, st := range starts[:2] {
+		for _, nm := range []tStmt{{Op: "outNull"}, {Op: "inNull", Strs: []string{"likes"}}, {Op: "outENull", Strs: []string{"knows"}}, {Op: "inENull"}} {
+			for _, a := range alpha {
+				for _, p := range [][]tStmt{{st, nm, a}, {st, nm, {Op: "as", Str: "m1"}, a, {Op: "select", Strs: []string{"m1"}}}, {st, {Op: "as", Str: "m1"}, nm, a, {Op: "path"}}} {
+					if windowOK(p) {
+						inputs = append(inputs, c01Input{Driver: "badger", Graph: fg, Prog: p})
+					}
+				}
+			}
+		}
+	}
+	// a tree with fan-out 3 below every vertex down to depth 3: sibling travelers with long paths (traveler copies must not
+	// share state), walked with every mix of moves, marks and path() / select() at the end
+	tg := treeGraph()
+	for _, mv := range [][]string{{"out", "out", "out"}, {"outE", "out", "outE", "out"}, {"out", "out", "both"}, {"outE", "out", "out", "inE"}, {"out", "out", "out", "in", "out"}, {"both", "both", "both"}, {"out", "bothE", "both", "bothE"}} {
+		for _, start := range []tStmt{{Op: "V", Strs: []string{"r"}}, {Op: "V"}} {
+			p := []tStmt{start}
+			for _, m := range mv {
+				p = append(p, tStmt{Op: m})
+			}
+			inputs = append(inputs, c01Input{Driver: "badger", Graph: tg, Prog: append(append([]tStmt{}, p...), tStmt{Op: "path"})},
+				c01Input{Driver: "badger", Graph: tg, Prog: append(append([]tStmt{}, p...), tStmt{Op: "as", Str: "m1"}, tStmt{Op: "path"})})
+			q := []tStmt{start, {Op: "as", Str: "m1"}}
+			for _, m := range mv {
+				q = append(q, tStmt{Op: m})
+			}
+			inputs = append(inputs, c01Input{Driver: "badger", Graph: tg, Prog: append(append([]tStmt{}, q...), tStmt{Op: "as", Str: "m2"}, tStmt{Op: "select", Strs: []string{"m1", "m2"}})})
+		}
 	}
 	ctx.Notes["exhaustive_prefix"] = fmt.Sprintf("%d programs: 4 starts x all sequences of <= %d steps over a %d-step alphabet on the fixed graph", len(inputs), depth, len(alpha))
 	n := ctx.Pick(40, 300)
